@@ -18,6 +18,7 @@ public:
     MMIORegion(MemoryInterfaceUnit& miu, ICU& icu, Apbp& apbp_from_cpu, Apbp& apbp_from_dsp,
                std::array<Timer, 2>& timer, Dma& dma, Ahbm& ahbm, std::array<Btdmp, 2>& btdmp);
     ~MMIORegion();
+    void Reset();
     u16 Read(u16 addr); // not const because it can be a FIFO register
     void Write(u16 addr, u16 value);
 
